@@ -17,9 +17,27 @@ def instr_sig(case, regs, i):
     ins = case.instrs[i].split()
     op = ins[0]
     name = op + (":" + ins[1] if op in ("bin", "un", "call", "mk") else "")
+    if op == "iop":
+        name = "bin:" + ins[1]          # `t op= x` on a class without __iop__ IS t = t op x: same operator, same recorded findings
     rs = [int(t[1:]) for t in ins[1:] if re.fullmatch(r"r\d+", t)]
     kinds = "".join(kind_letter(regs[r]) if r < len(regs) else "?" for r in rs)
-    return {"instr": name, "operands": kinds}
+    sig = {"instr": name, "operands": kinds}
+    if op == "iop":
+        sig["form"] = "augmented-assignment"
+    return sig
+
+
+def augmented_assignment_mutations(ex, r):
+    """direct oracle for `iop` (augmented assignment through a second reference): the worker compares the ORIGINAL register's
+    canonical value before and after the statement; a change is reported under the iop's own signature.  Returns True if any."""
+    mut = [x for x in r.fields.get("MUT", "").split(",") if x]
+    for x in mut[:1]:
+        j, a = (int(t) for t in x.split(":"))
+        sig = instr_sig(r.case, r.regs + ["?"] * (j + 1 - len(r.regs)), j); sig["dev"] = "receiver-changed-by-augmented-assignment"
+        ex.violations.append(Violation(sig, f"`t = r{a}; t {r.case.instrs[j].split()[1]}= ...` ({r.case.instrs[j]}) changed the original: r{a} "
+                                            f"({r.case.instrs[a]}) now reads {r.regs[a][:60] if a < len(r.regs) else '?'}",
+                                       {"case": r.case.line(), "instruction": j, "register": a}))
+    return bool(mut)
 
 
 def in_guard(case, i):
